@@ -9,6 +9,7 @@ import (
 	"encoding/xml"
 	"errors"
 	"fmt"
+	"io"
 	"io/ioutil"
 	"strconv"
 	"strings"
@@ -223,9 +224,12 @@ func (c *Conf) InitFromBytes(content []byte) error {
 	nodeStack = append(nodeStack, c.root)
 	for {
 		currNode := nodeStack[len(nodeStack)-1]
-		token, _ := xmlDecoder.Token()
-		if token == nil {
+		token, err := xmlDecoder.Token()
+		if err == io.EOF {
 			break
+		}
+		if err != nil {
+			return err
 		}
 		switch t := token.(type) {
 		case xml.CharData:
